@@ -7,6 +7,8 @@ LEVEL = "proof"
 GEN_UNITS = ["GenUtils", "GenKernels", "GenUtils2", "GenHandles", "GenFgSetup"]
 COQ_TARGETS = ["Props/C17.vo", "Props/C17Fg.vo", "Model/Harness.vo"]
 THEOREM_FILES = ["Props/C17.v", "Props/C17Fg.v"]
+INCLUDE = ["w3gen"]   # wave 3: the functions the translator generates since then (GenUtils3, GenUtils3b, GenKernels3, GenMethods*):
+                       # their bridge lemmas / laws (Props/W3*.v) and their differential stream run inside this check
 COQ_IMPORTS = ("From Coq Require Import Reals List ZArith Bool.\n"
                "From PV Require Gen.GenFgSetup.\n"
                "From PV Require Import Np.NpZ Np.NpZ2 Gen.GenUtils Gen.GenKernels Gen.GenUtils2 Model.Harness Proofs.KhatriRao.\n")
